@@ -285,6 +285,9 @@ func (l *hookLogger) Error(string, ...interface{}) { l.perturb() }
 // state-change log line (emitted inside its lock); any request that started after a
 // trip was decided, returned before that trip's deadline and still reached the
 // protected handler violates the shield.
+// stallSeen: a stall was detected earlier in this process (shrinking then re-runs variants).
+var stallSeen atomic.Bool
+
 func TestC05_Stress(t *testing.T) {
 	rapid.Check(t, func(t *rapid.T) {
 		F := time.Duration(rapid.SampledFrom([]int{200, 500, 1000}).Draw(t, "fallbackMs")) * time.Millisecond
@@ -353,11 +356,16 @@ func TestC05_Stress(t *testing.T) {
 		}
 		finished := make(chan struct{})
 		go func() { wg.Wait(); close(finished) }()
+		wait := 60 * time.Second
+		if stallSeen.Load() {
+			wait = 2 * time.Second // a stall has been established in this process already: do not sit out every shrink attempt
+		}
 		select {
 		case <-finished:
-		case <-time.After(60 * time.Second):
+		case <-time.After(wait):
+			stallSeen.Store(true)
 			close(stop)
-			t.Fatalf("%d workers x %d requests against the breaker did not finish within 60 s of real time: some request is never answered (deadlock inside the breaker)", workers, perWorker)
+			t.Fatalf("%d workers x %d requests against the breaker did not finish within %v of real time: some request is never answered (deadlock inside the breaker)", workers, perWorker, wait)
 		}
 		close(stop)
 		<-clockDone
